@@ -126,6 +126,13 @@ def step (d : DState) (opLine : String) (impl : String) : DState × StepOut :=
   match words opLine with
   | ["reset", si, gap] =>
     ({ model := init (mkCfg (natArg si) (natArg gap)) }, { model := "ok @0 0:0:0:0" })
+  -- client-side pure functions
+  | ["csplit", p, l, b, c] =>
+    let vals := PdModel.Tso.clientSplit (natArg l) (natArg c) (natArg b)
+    (d, { model := " ".intercalate (vals.map (fun v => s!"{natArg p}:{v}")) })
+  | ["tsle", p, l, tp, tl] =>
+    (d, { model := if PdModel.Tso.tsLessEqual (natArg p) (natArg l) (natArg tp) (natArg tl) then "true" else "false" })
+  | ["compose", p, l] => (d, { model := toString (C01.compose (natArg p) (natArg l)) })
   | ws =>
     match parseOp ws with
     | none => (d, { model := "bad-op @0 0:0:0:0" })
